@@ -563,6 +563,8 @@ class Agent(dbus.service.Object):
 
             # Size left for transfer data
             remain_size = mtu - len(msg_head) - 8
+            # the 20-bit message length covers the hints, the transfer header and the data
+            remain_size = min(remain_size, 2 ** 20 - 1 - (len(msg_head) - 4) - 8)
             if remain_size <= 0:
                 raise ValueError('MTU {} too small to segment transfer {}'.format(mtu, item.transfer_id))
 
